@@ -193,41 +193,48 @@ func (m *Machine) zlibIntrinsic(name string, args []Val) (Val, bool) {
 		r := m.invoke(z.dst, "Write", Slice{arr: stream, len: sz, cap: sz}).(Tuple)
 		return r[1], true
 	case "compress/zlib.NewReader":
-		z := &zrObj{src: args[0]}
-		// the real NewReader wraps readers lacking ReadByte in a bufio.Reader,
-		// which may consume more than the stream; reftable passes *bytes.Buffer
-		if ifc, ok := args[0].(Iface); !ok || !m.hasMethod(ifc, "ReadByte") {
-			unsupported("zlib.NewReader over a reader without ReadByte")
-		}
-		if ifc := args[0].(Iface); m.hasMethod(ifc, "Bytes") && m.hasMethod(ifc, "Next") {
-			// a *bytes.Buffer: decode from a copy of its unread bytes, consume
-			// everything but the 4-byte trailer now and the trailer when EOF is
-			// reported, which is when compress/zlib reads it (reftable derives the
-			// on-disk length of a log block from what was consumed)
-			rest := m.invoke(args[0], "Bytes").(Slice)
-			cp := newByteArray(rest.len)
-			copyRange(cp, 0, rest.arr, rest.off, rest.len)
-			src := &arraySrc{a: cp, n: rest.len}
-			z.asrc = src
-			e := z.fill(m)
-			z.asrc = nil
-			if e != nil {
-				m.invoke(args[0], "Next", goInt(src.pos))
-				return Tuple{nil, e}, true
-			}
-			z.tail = 4
-			if src.pos < 4 {
-				z.tail = src.pos
-			}
-			m.invoke(args[0], "Next", goInt(src.pos-z.tail))
-			return Tuple{Iface{nativeZRType, z}, nil}, true
-		}
-		if e := z.fill(m); e != nil {
+		z := &zrObj{}
+		if e := m.zrOpen(z, args[0]); e != nil {
 			return Tuple{nil, e}, true
 		}
 		return Tuple{Iface{nativeZRType, z}, nil}, true
 	}
 	return nil, false
+}
+
+// zrOpen (re)starts the reader model on a new source (NewReader and Resetter.Reset).
+func (m *Machine) zrOpen(z *zrObj, src Val) Val {
+	*z = zrObj{src: src}
+	// the real NewReader wraps readers lacking ReadByte in a bufio.Reader,
+	// which may consume more than the stream; reftable passes *bytes.Buffer
+	ifc, ok := src.(Iface)
+	if !ok || !m.hasMethod(ifc, "ReadByte") {
+		unsupported("zlib.NewReader over a reader without ReadByte")
+	}
+	if m.hasMethod(ifc, "Bytes") && m.hasMethod(ifc, "Next") {
+		// a *bytes.Buffer: decode from a copy of its unread bytes, consume
+		// everything but the 4-byte trailer now and the trailer when EOF is
+		// reported, which is when compress/zlib reads it (reftable derives the
+		// on-disk length of a log block from what was consumed)
+		rest := m.invoke(src, "Bytes").(Slice)
+		cp := newByteArray(rest.len)
+		copyRange(cp, 0, rest.arr, rest.off, rest.len)
+		as := &arraySrc{a: cp, n: rest.len}
+		z.asrc = as
+		e := z.fill(m)
+		z.asrc = nil
+		if e != nil {
+			m.invoke(src, "Next", goInt(as.pos))
+			return e
+		}
+		z.tail = 4
+		if as.pos < 4 {
+			z.tail = as.pos
+		}
+		m.invoke(src, "Next", goInt(as.pos-z.tail))
+		return nil
+	}
+	return z.fill(m)
 }
 
 func (m *Machine) hasMethod(ifc Iface, name string) bool {
@@ -285,6 +292,9 @@ func (m *Machine) zrInvoke(z *zrObj, name string, args []Val) (Val, bool) {
 		return Tuple{goInt(n), nil}, true
 	case "Close":
 		return nil, true
+	case "Reset":
+		// zlib.Resetter: the same object starts over on a new stream
+		return m.zrOpen(z, args[0]), true
 	}
 	return nil, false
 }
